@@ -62,6 +62,7 @@ class Group:
     invariant_is_property: bool = False   # loop-invariant step failures count as property failures
     malloc_may_fail: bool = False
     extra_instrument: List[str] = field(default_factory=list)
+    enforce_rec: bool = False             # the function under contract is recursive: recursive calls are replaced by its own contract
     oldstyle: bool = False                # goto-instrument's static (non-dfcc) contract instrumentation: used where dfcc's
                                           # dynamic write-set checks make symbolic execution intractable (pointer locals havoced by a loop contract)
     no_dfcc: bool = False                 # plain harness (spec-level lemma), no contract instrumentation
@@ -276,7 +277,7 @@ def _run_group_once(g: Group, prop: str, keep_trace=True, sub="") -> Result:
             b = os.path.join(wd, "b.gb")
             cmd = ["goto-instrument"] + ([] if g.oldstyle else ["--dfcc", g.entry])
             if g.enforce:
-                cmd += ["--enforce-contract", g.enforce]
+                cmd += ["--enforce-contract-rec" if g.enforce_rec else "--enforce-contract", g.enforce]
             for r in g.replace:
                 cmd += ["--replace-call-with-contract", r]
             if g.loops is not None:
